@@ -29,6 +29,8 @@ type Shadow struct {
 	AccTag     map[uint64]string          // view -> block tag of the adopted proposal
 	TimelyPrep map[string]map[string]bool // "v/hash" -> genuine non-leader member PREPAREs delivered while View <= v
 	Prepared   map[uint64]bool            // views with a complete strict certificate
+	OptVotes   map[uint64]map[string]bool            // view -> sender: valid votes the leader MAY count (proof-less with a stray block)
+	VoteForms  map[uint64]map[string]map[string]bool // view -> sender -> proof renderings of every valid vote delivered
 	Votes      map[uint64]map[string]Vote // view -> sender -> reference-valid votes delivered to me as leader(view) while View <= view, with block ok
 	TimedOutTo map[uint64]bool            // views entered by own timeout (own vote exists)
 
@@ -57,6 +59,8 @@ func (s *Shadow) Reset(height uint64) {
 	s.TimelyPrep = map[string]map[string]bool{}
 	s.Prepared = map[uint64]bool{}
 	s.Votes = map[uint64]map[string]Vote{}
+	s.OptVotes = map[uint64]map[string]bool{}
+	s.VoteForms = map[uint64]map[string]map[string]bool{}
 	s.TimedOutTo = map[uint64]bool{}
 	s.OwnProp = map[uint64]string{}
 	s.OwnPrep = map[uint64]string{}
@@ -102,17 +106,29 @@ func (s *Shadow) OnDeliver(i Info, shareOK, freshOK bool) {
 	case KVC:
 		v := Vote{Type: i.Hdr.Type, Inst: i.Hdr.Inst, Height: i.Hdr.Height, View: i.Hdr.View, Sender: i.Sender, Proof: i.Proof}
 		if r.Leader(i.Hdr.View) == s.Me && s.View <= i.Hdr.View && r.ValidVote(v, s.Height, i.Hdr.View) {
-			blockOK := !i.Proof.Present && i.BlockTag == "-" || i.Proof.Present && i.BlockHsh == i.Proof.PP.Hash
-			if !i.Proof.Present && i.BlockTag != "-" {
-				blockOK = true // a block without a proof is simply ignored by the rules
+			// votes a correct member can emit (no proof and no block, or a valid proof with its block) MUST be
+			// counted; a valid vote with a stray or missing block MAY be counted (the rules do not say).
+			must := !i.Proof.Present && i.BlockTag == "-" || i.Proof.Present && i.BlockHsh == i.Proof.PP.Hash
+			if s.VoteForms[i.Hdr.View] == nil {
+				s.VoteForms[i.Hdr.View] = map[string]map[string]bool{}
 			}
-			if blockOK {
+			if s.VoteForms[i.Hdr.View][i.Sender.ID] == nil {
+				s.VoteForms[i.Hdr.View][i.Sender.ID] = map[string]bool{}
+			}
+			s.VoteForms[i.Hdr.View][i.Sender.ID][v.Proof.String()] = true
+			if must {
 				if s.Votes[i.Hdr.View] == nil {
 					s.Votes[i.Hdr.View] = map[string]Vote{}
 				}
 				if _, dup := s.Votes[i.Hdr.View][i.Sender.ID]; !dup {
 					s.Votes[i.Hdr.View][i.Sender.ID] = v
 				}
+			} else if !i.Proof.Present {
+				// a proof-less vote with a stray block: may be counted
+				if s.OptVotes[i.Hdr.View] == nil {
+					s.OptVotes[i.Hdr.View] = map[string]bool{}
+				}
+				s.OptVotes[i.Hdr.View][i.Sender.ID] = true
 			}
 		}
 	case KNV:
@@ -205,6 +221,18 @@ func (s *Shadow) Dump() string {
 	for v, m := range s.Votes {
 		for id, vt := range m {
 			vs = append(vs, fmt.Sprintf("%d:%s:%s", v, id, vt.Proof))
+		}
+	}
+	for v, m := range s.OptVotes {
+		for id := range m {
+			vs = append(vs, fmt.Sprintf("%d:%s:opt", v, id))
+		}
+	}
+	for v, m := range s.VoteForms {
+		for id, fs := range m {
+			for f := range fs {
+				vs = append(vs, fmt.Sprintf("%d:%s:form:%s", v, id, f))
+			}
 		}
 	}
 	sort.Strings(vs)
